@@ -103,11 +103,52 @@ def every_cycle_passes(body, h, blocks, must):
     return True
 
 
+def _split_targs(ty):
+    """head and top-level generic arguments of `Head<A, B, ..>`"""
+    i = ty.find("<")
+    if i < 0 or not ty.endswith(">"):
+        return ty, []
+    head, inner = ty[:i], ty[i + 1:-1]
+    args, depth, cur = [], 0, ""
+    for ch in inner:
+        if ch in "<([":
+            depth += 1
+        elif ch in ">)]":
+            depth -= 1
+        if ch == "," and depth == 0:
+            args.append(cur.strip())
+            cur = ""
+        else:
+            cur += ch
+    if cur.strip():
+        args.append(cur.strip())
+    return head, args
+
+
+def iter_type_finite(ty):
+    """is an iterator of this (resolved) type finite whenever its finite components are?  Zip is as short as its
+    shorter side, Take is bounded, adaptors inherit from their inner iterator, Chain needs both"""
+    ty = ty.strip().lstrip("&").replace("mut ", "").strip()
+    head, args = _split_targs(ty)
+    if any(head + "<" == i or (head + "<").endswith(i) for i in INFINITE_ITERS) or any(ty.startswith(i) for i in INFINITE_ITERS):
+        return False
+    last = head.split("::")[-1]
+    if last == "Zip" and len(args) >= 2:
+        return iter_type_finite(args[0]) or iter_type_finite(args[1])
+    if last == "Take":
+        return True
+    if last == "Chain" and len(args) >= 2:
+        return iter_type_finite(args[0]) and iter_type_finite(args[1])
+    if last in ("Map", "MapWhile", "TakeWhile", "Enumerate", "Peekable", "Filter", "FilterMap", "Skip", "SkipWhile", "StepBy", "Inspect", "Cloned", "Copied", "Rev", "Fuse", "Scan", "Flatten", "FlatMap") and args:
+        return iter_type_finite(args[0])
+    return not any(i in ty for i in INFINITE_ITERS) or last in ("Iter", "IntoIter", "IterMut")
+
+
 def iterator_driven(body, h, blocks):
     for (bb, t, c) in body.call_sites(lambda c: c.decl_path == "std::iter::Iterator::next"):
         if bb not in blocks:
             continue
-        if any(i in c.self_ty for i in INFINITE_ITERS):
+        if not iter_type_finite(c.self_ty or ""):
             continue
         if not every_cycle_passes(body, h, blocks, [bb]):
             continue
